@@ -6,7 +6,7 @@
    is_von_name = the local function of Person._parse_string;  jr_part, first_part, token_case,
    spec_is_von: Spec/Names.v. *)
 From Pybtex Require Import Base.Prelude Base.PyChar Base.PyStr Model.BibtexStr Model.Names Spec.Names
-  Proofs.NamesSplit Proofs.Names Proofs.NamesCase Proofs.NamesAtomic.
+  Proofs.NamesSplit Proofs.Names Proofs.NamesCase Proofs.NamesAtomic Proofs.NamesOk.
 
 (* parsing never raises a foreign exception and never diverges, for EVERY string and every
    explicit part argument (the only error left is BibTeXError 'too many nested braces') *)
@@ -15,6 +15,19 @@ Theorem parse_name_total : forall s first middle prelast last_ lineage,
   person_init s first middle prelast last_ lineage <> OutOfFuel.
 Proof. exact parse_name_total_pf. Qed.
 Print Assumptions parse_name_total.
+
+(* parsing SUCCEEDS for every string with at most 100 opening braces (the recursion guard
+   max_level = 100 of BibTeXString cannot fire) ... *)
+Theorem parse_name_ok : forall s, length (filter is_lbrace s) <= 100 ->
+  exists p rep, person_of_string s = Ok (p, rep).
+Proof. exact parse_name_ok_pf. Qed.
+Print Assumptions parse_name_ok.
+
+(* ... and beyond that the guard can fire: Person() raises BibTeXError (a pybtex error), e.g. for
+   "x {{{...101...{ y" -- so "parsing succeeds for every string" holds only up to that depth *)
+Theorem parse_name_guard : exists s line, person_of_string s = PyErr E_BIBTEX line.
+Proof. exact parse_name_guard_pf. Qed.
+Print Assumptions parse_name_guard.
 
 (* no token is lost, duplicated or reordered: with [parts] the comma parts of the stripped string,
    - no comma:  first ++ middle ++ von ++ last is exactly the token list of the string, jr is empty;
